@@ -67,6 +67,15 @@ def apply_overlay(tree, group, tier):
     for rel, text in group.get("append_text", []):
         with open(os.path.join(tree, rel), "a") as f:
             f.write("\n" + text + "\n")
+    for rel, pattern, repl in group.get("subst_src", []):
+        # mechanical retargeting of an import (used to swap a dependency for its model)
+        path = os.path.join(tree, rel)
+        src_text = open(path).read()
+        new_text, k = re.subn(pattern, repl, src_text)
+        if k != 1:
+            raise OverlayError("subst pattern %r matches %d times in %s" % (pattern, k, rel))
+        with open(path, "w") as f:
+            f.write(new_text)
     for rel, anchor, text in group.get("inject", []):
         path = os.path.join(tree, rel)
         src_text = open(path).read()
